@@ -99,6 +99,19 @@ func (t *tlFunc) mayEmptyCall(c *ssa.CallCommon) (bool, string) {
 	return false, ""
 }
 
+// mayEmptyHelper: a table-level helper of this package that hands a possibly empty kernel result back
+// without testing it (summary flag); the caller is then in the position of having made that kernel call.
+func (t *tlFunc) mayEmptyHelper(c *ssa.CallCommon) (bool, string) {
+	f := c.StaticCallee()
+	if f == nil || !t.e.inScope(f) || f.Blocks == nil || t.e.isKernelFn(f) {
+		return false, ""
+	}
+	if s := t.e.summary(f, boolCtxArgs(t, f, c.Args)); s != nil && s.mayEmptyRet {
+		return true, f.Name()
+	}
+	return false, ""
+}
+
 func (t *tlFunc) collectF3() {
 	lv := t.e.lv
 	tests := t.emptinessTests()
@@ -113,14 +126,21 @@ func (t *tlFunc) collectF3() {
 				continue
 			}
 			may, opName := t.mayEmptyCall(&call.Call)
+			viaHelper := false
 			if !may {
-				continue
+				if may, opName = t.mayEmptyHelper(&call.Call); !may {
+					continue
+				}
+				viaHelper = true
 			}
 			_, args := t.callTargets(&call.Call)
 			if len(args) == 0 {
 				continue
 			}
 			recv := args[0]
+			if viaHelper && (call.Type() == nil || !lv.isSlotType(call.Type())) {
+				continue
+			}
 			// subject: the result when it is a slot value, else the receiver (in-place bucket operations)
 			var subj ssa.Value
 			resultIsSlot := false
@@ -177,6 +197,24 @@ func (t *tlFunc) collectF3() {
 					if inTable && st == tab && (idx == nil || idx == si) && len(uses) == 0 {
 						mine = append(mine, et)
 					}
+				}
+			}
+			if len(mine) == 0 && resultIsSlot && t.returnsValue(call) && !isExportedAPI(t.fn) {
+				// handed back to the caller untested: the obligation travels with the value
+				if !t.sum.mayEmptyRet {
+					t.sum.mayEmptyRet = true
+					t.e.changed = true
+				}
+				onlyReturned := true
+				for _, u := range uses {
+					if u.kind == "slot" {
+						onlyReturned = false
+					}
+				}
+				if onlyReturned {
+					site.status, site.note = "ok", "returned to the caller untested: the caller's store is checked instead"
+					t.e.addSite(site)
+					continue
 				}
 			}
 			if len(mine) == 0 {
@@ -378,4 +416,36 @@ func phiGuarded(ph *ssa.Phi, et emptyTest) bool {
 		return false
 	}
 	return n > 0
+}
+
+// returnsValue: v (possibly through phis and interface conversions) is a result of the enclosing function.
+func (t *tlFunc) returnsValue(v ssa.Value) bool {
+	seen := map[ssa.Value]bool{}
+	var walk func(x ssa.Value) bool
+	walk = func(x ssa.Value) bool {
+		if seen[x] || x.Referrers() == nil {
+			return false
+		}
+		seen[x] = true
+		for _, r := range *x.Referrers() {
+			switch u := r.(type) {
+			case *ssa.Return:
+				return true
+			case *ssa.Phi:
+				if walk(u) {
+					return true
+				}
+			case *ssa.MakeInterface:
+				if walk(u) {
+					return true
+				}
+			case *ssa.ChangeInterface:
+				if walk(u) {
+					return true
+				}
+			}
+		}
+		return false
+	}
+	return walk(v)
 }
